@@ -35,7 +35,8 @@ broadcast use words::lemma_mul_word;
 pub struct P<W, R, T> { pub w: Ghost<W>, pub r: Ghost<R>, pub t: Ghost<T> }
 /// the representations a copying update can produce
 pub enum XSequence<W, R, T> { Empty, Array(Vec<Val<W, R, T>>), Other(P<W, R, T>) }
-pub enum XValue<W, R, T> { Native(Box<XSequence<W, R, T>>), Bool(bool), Int(LazyBigint) }
+pub struct Func { pub id: Ghost<int> }
+pub enum XValue<W, R, T> { Native(Box<XSequence<W, R, T>>), Bool(bool), Int(LazyBigint), Function(Func) }
 pub mod xvalue { pub use super::XValue; }
 /// Rc<ManagedXValue>
 pub struct Val<W, R, T> { pub value: XValue<W, R, T> }
